@@ -174,6 +174,10 @@ def c17_oracle(case, obs):
                     out.append(("%s: connect failed with AddrNotAvailable although host %d has a source address for %s" % (where, h, dst), None))
         elif n == "poll":
             s = by_handle.get(cmd[1])
+            if s is not None and s.role == "conn" and o["r"] in ("ok", "ConnectionRefused") and not s.lossy \
+                    and owner(hosts, s.peer[0]) is None and not local_to(hosts, s.host, s.peer[0]):
+                out.append(("%s: connect to %s:%d, an address that no host owns and that is not local to host %d, was answered (%s); the SYN must vanish in the fabric"
+                            % (where, s.peer[0], s.peer[1], s.host, o["r"]), None))
             if s is not None and o["r"] not in ("ok", "pending", "n/a"):
                 socks.remove(s)            # the failed connect closed its fd
                 del by_handle[cmd[1]]
@@ -362,6 +366,7 @@ class Spec(PropSpec):
         cases += [F.gen_wrap(rng) for _ in range(40 * n)]
         cases += [F.gen_dualstack(rng) for _ in range(40 * n)]
         cases += [F.gen_passive_close(rng, variant=v) for v in (0, 1, 2) for _ in range(8 * n)]
+        cases += [F.gen_dst_classes(rng) for _ in range(6 * n)]
         cases += F.gen_alloc_exhaustive() + [F.gen_alloc(rng) for _ in range(60 * n)]
         return cases
 
